@@ -46,6 +46,18 @@ spec fn un2_post<T: Vars0>(a: &T, r: &T, f: real, fa: real, faa: real) -> bool {
     && (forall|n: String, k: String| #[trigger] r.s_hess(n, k) == fa * a.s_hess(n, k) + faa * a.s_grad(n) * a.s_grad(k) / 2real)
 }
 
+/// unary rules where the result's variable list is only known as a SET (the operand went through union alignment)
+#[verifier::inline]
+spec fn un1set_post<T: Vars0>(a: &T, r: &T, f: real, fa: real) -> bool {
+    r.s_wf() && r.s_val() == f && (forall|n: String| #[trigger] r.s_arc()@.contains(n) <==> a.s_arc()@.contains(n))
+    && (forall|n: String| #[trigger] r.s_grad(n) == fa * a.s_grad(n))
+}
+#[verifier::inline]
+spec fn un2set_post<T: Vars0>(a: &T, r: &T, f: real, fa: real, faa: real) -> bool {
+    un1set_post(a, r, f, fa)
+    && (forall|n: String, k: String| #[trigger] r.s_hess(n, k) == fa * a.s_hess(n, k) + faa * a.s_grad(n) * a.s_grad(k) / 2real)
+}
+
 /// "Mixing floats and duals gives the same answer as promoting the float to a constant":
 /// a constant c has no names, zero gradient and zero Hessian; the binary rule then collapses to the unary one.
 spec fn is_const<T: Vars0>(c: &T, v: real) -> bool {
@@ -239,4 +251,10 @@ pub(crate) proof fn alg_div2(x: real, w1: real, ha: real, hb: real, gan: real, g
     alg_cross(gan, t2, gbk);
     alg_cross(gak, t2, gbn);
     alg_distrib(-t2, gan * gbk, gak * gbn);
+}
+
+pub proof fn alg_neg_mul(q: real, g: real)
+    ensures -(q * g) == (-q) * g, 0real - q * g == (-q) * g,
+{
+    assert(-(q * g) == (-q) * g) by(nonlinear_arith);
 }
